@@ -235,7 +235,7 @@ class Walker:
         self.max_len, self.rng = max_len, rng
         self.use_git = use_git
         self.git = GitView(objs, scratch) if (use_git and kind == "disk") else None
-        self.findings, self.drift = [], []
+        self.by_sig, self.nfindings, self.drift, self.ndrift = {}, 0, [], 0
         self.steps = self.behaviours = self.validated = 0
         self.executed = set()            # (src, label idx) executed from a matching real state
         self.nontrivial = set()
@@ -265,6 +265,8 @@ class Walker:
                 if d not in seen:
                     seen.add(d)
                     q.append(d)
+        if self.kind != "disk":     # directories mean nothing there: one representative per placement
+            seen = {s for s in seen if self.g.lookup(self.g.loose[s], self.g.packed[s]) == s}
         return {(s, li) for s in seen for (li, _) in self.allowed[s]}
 
     def new_backend(self):
@@ -279,8 +281,6 @@ class Walker:
     def cover(self, targets):
         """targets: set of (src, label idx) to execute.  Returns the ones never reached."""
         g = self.g
-        if self.kind != "disk":
-            targets = {(s, li) for (s, li) in targets if g.lookup(g.loose[s], g.packed[s]) == s}
         unc = collections.Counter(s for (s, _) in targets)
         remaining = set(targets)
         stuck = 0
@@ -376,6 +376,8 @@ class Walker:
                         f"after {call_str(lab)} -> {got} the refs differ from the contract: {diff_desc(lab, want_eff, got_eff)}",
                         hist, be, {"expected_state": _ser(want_eff), "real_state": _ser(got_eff)})
         if not bad and real != dst:
+            self.ndrift += 1
+        if not bad and real != dst and len(self.drift) < 20:
             self.drift.append(f"{self.kind}: placement after {call_str(lab)} in {case}: real loose={_ser(loose)} "
                               f"packed={_ser(packed)} dirs={sorted('/'.join(d) for d in (rdirs or ()))}; model "
                               f"loose={_ser(g.loose[dst])} packed={_ser(g.packed[dst])} dirs={sorted('/'.join(d) for d in g.dirs[dst])}")
@@ -449,11 +451,20 @@ class Walker:
             self.report(be.site, "git-view", f"{clause} {case}", what, hist, be, {"git": view})
 
     def report(self, site, clause, case, what, hist, be, extra):
+        """One finding per signature: the occurrence with the shortest history is kept."""
         sig = f"{site}|{clause}|{case}"
+        self.nfindings += 1
+        old = self.by_sig.get(sig)
+        if old is not None and len(old.replay["calls"]) <= len(hist):
+            return
         obj = {"backend": self.kind, "names": [list(n) for n in self.g.names], "calls": [dict(h) for h in hist],
                "clause": clause, "case": case}
         obj.update(extra)
-        self.findings.append(Finding(sig, what, obj))
+        self.by_sig[sig] = Finding(sig, what, obj)
+
+    @property
+    def findings(self):
+        return list(self.by_sig.values())
 
 
 def git_diffs(objs, view, obs, loose, packed):
